@@ -115,11 +115,13 @@ pub struct M {
     /// what the killed query's task has sent (None: still running)
     zsent: Option<bool>,
     zsender: bool,
+    /// a create request is still parked at the peers for a query that has since been killed
+    zcreate: bool,
 }
 
 impl M {
     fn new() -> Self {
-        Self { st: St::Absent, real: false, sent: None, has_sender: false, new_pending: false, complete_pending: false, zombie: false, zsent: None, zsender: false }
+        Self { st: St::Absent, real: false, sent: None, has_sender: false, new_pending: false, complete_pending: false, zombie: false, zsent: None, zsender: false, zcreate: false }
     }
     fn status(&self) -> Option<QueryStatus> {
         Some(match self.st {
@@ -147,7 +149,8 @@ impl M {
     }
 
     fn enabled(&self, view: View) -> Vec<Ev> {
-        let mut v = vec![Ev::NewStart];
+        // (scope) no further create request while an abandoned one is still parked at the peers
+        let mut v = if self.zcreate { vec![] } else { vec![Ev::NewStart] };
         if self.new_pending {
             v.extend([Ev::NewFinish(Verdict::Ok), Ev::NewFinish(Verdict::H3Rejects), Ev::NewFinish(Verdict::ShardRejects)]);
         }
@@ -176,7 +179,7 @@ impl M {
             v.push(Ev::PollComplete);
         }
         // one parked completion per slot in the harness: no second kill-with-parked-completion while a zombie exists
-        if !self.new_pending && !(self.zombie && self.complete_pending) {
+        if !(self.zombie && self.complete_pending) && !self.zcreate {
             v.push(Ev::Kill);
         }
         if self.zombie {
@@ -201,8 +204,17 @@ impl M {
                     "Err:AlreadyRunning".into()
                 }
             }
-            Ev::NewFinish(v) => {
+            Ev::NewFinish(_) if self.zcreate && self.st != St::Absent => {
+                // the abandoned create request resumes: whatever it answers, the query slot (possibly
+                // holding a query registered since the kill) must not change
                 self.new_pending = false;
+                self.zcreate = false;
+                "Any".into()
+            }
+            Ev::NewFinish(v) => {
+                // (also the abandoned create request finding the slot empty: it proceeds like a fresh one)
+                self.new_pending = false;
+                self.zcreate = false;
                 match v {
                     Verdict::Ok => {
                         self.st = St::AwaitingInputs;
@@ -344,6 +356,10 @@ impl M {
                 if self.st == St::Absent {
                     "Err:NoSuchQuery".into()
                 } else {
+                    if self.new_pending {
+                        // the create request parked at the peers outlives the kill
+                        self.zcreate = true;
+                    }
                     if self.complete_pending {
                         // the parked completion request outlives the kill; its query is gone
                         self.zombie = true;
@@ -685,14 +701,19 @@ pub fn run_hist(view: View, hist: &[Ev]) -> Result<(M, Vec<Ev>), String> {
         let mut sys = Sys::new(view);
         let mut m = M::new();
         for (i, ev) in hist.iter().enumerate() {
+            let was_zcreate = m.zcreate && m.st != St::Absent;
             let expect = m.step(view, *ev);
             let got = sys.apply(*ev).await;
+            let got = if expect == "Any" && got != "Pending" { "Any".to_string() } else { got };
             if got != expect {
                 return Err(format!("step {} {ev:?}: the helper answered {got}, the lifecycle model says {expect} (model state after: {m:?})", i + 1));
             }
             // stored status: equal to the model's up to the lazy Running -> Completed promotion
             let raw = sys.raw_status();
             let coarse = |s: Option<QueryStatus>| s.map(|s| if s == QueryStatus::Completed { QueryStatus::Running } else { s });
+            if coarse(raw) != coarse(m.status()) && was_zcreate && matches!(ev, Ev::NewFinish(_)) {
+                return Err(format!("zombie create: step {} {ev:?}: a create request that was parked at the peers before its query was killed has now finished and the helper stores status {raw:?}; the query registered since then was in {:?} and must not be touched", i + 1, m.status()));
+            }
             if coarse(raw) != coarse(m.status()) && matches!(ev, Ev::PollZombie) {
                 return Err(format!("zombie completion: step {} {ev:?}: a completion request that was parked before its query was killed has now finished and the helper stores status {raw:?}; the query registered since then was in {:?} and must not be touched", i + 1, m.status()));
             }
@@ -786,7 +807,7 @@ fn run() {
         r.sample(json!({"view":format!("{view:?}"),"states":st.states,"transitions":st.transitions,"deepest_history":ev_json(&st.deepest)}));
         r.add("failing_transitions", st.failing_transitions);
         for (h, e) in st.failures {
-            let kind = if e.contains("panic") { "panic" } else if e.starts_with("zombie completion") { "zombie-completion" } else if e.contains("stores status") { "state" } else { "answer" };
+            let kind = if e.contains("panic") { "panic" } else if e.starts_with("zombie completion") { "zombie-completion" } else if e.starts_with("zombie create") { "zombie-create" } else if e.contains("stores status") { "state" } else { "answer" };
             let last = h.last().map(|e| format!("{e:?}")).unwrap_or_default();
             r.violation(&format!("lifecycle:{kind}:{view:?}:{last}"), &e, json!({"part":"lifecycle","view":format!("{view:?}"),"history":ev_json(&h)}));
         }
